@@ -562,7 +562,8 @@ class C08:
             for x in walk(r.term):
                 if x[0] == "comp" and x[3][0][1] == p:
                     comp = x
-        empty0 = any(r.term in (("const", 0.0), ("const", 0)) and any(c[0] == "not" and c[1][0] == "comp" for c in conjuncts(r.live)) for r in ms.returns)
+        from sa.idioms import guarded_empty
+        empty0 = comp is not None and any(r.term in (("const", 0.0), ("const", 0)) and guarded_empty(r.live, comp) for r in ms.returns)
         valid = comp is not None and comp[2] == ("elem", comp[3][0][0]) and comp[3][0][2] == (("cmp", "isnot", ("elem", comp[3][0][0]), NONE),)
         meanret = any(r.term[0] == "call" and r.term[1] == ("builtin", "float") and r.term[2][0][0] == "call"
                       and r.term[2][0][1] == ("ext", "numpy.mean") and r.term[2][0][2] == (comp,) for r in ms.returns) if comp else False
